@@ -37,7 +37,8 @@ CHECK = Check(
         "(both uuid_matching_first values) and generic family, enumerated completely; random_instances / "
         "metrics_scenes: Hypothesis, up to 12 objects per side over 4 cameras (one of them cam_traffic_light), all "
         "classification labels of the family, estimates built relative to GTs (same / label flipped / uuid changed / "
-        "camera changed / extra), both lists shuffled, 1-3 frames and a target-label subset for the scene scores. "
+        "camera changed / dropped / extra / uuids of two estimates exchanged), both lists shuffled, 1-3 frames and a "
+        "target-label list (single, few, subset, all) for the frame and scene scores. "
         "Non-trivial = objects in >=2 cameras, or a returned pair with equal label and different uuids, or a returned "
         "pair with equal uuid and different labels; distinct by descriptor hash."
     ),
@@ -310,7 +311,7 @@ def _cmp_scores(ctx, got, tp, r, g, where):
     return undefined
 
 
-def _counts(fam, targets, E, G, rows):
+def _counts(targets, E, G, rows):
     """Per target label (R, TP, G) from the *descriptors* and the observed rows."""
     out = {t: [0, 0, 0] for t in targets}
     for i, j in rows:
@@ -327,7 +328,7 @@ def _score_frame(ctx, fam, targets, E, G, gt, res, rows):
     """Frame-level scores the way PerceptionFrameResult.evaluate_frame builds them. Returns (dict, numdict, counts)."""
     L = _lib()
     tl = [L["lab"][fam][t] for t in targets]
-    cnt = _counts(fam, targets, E, G, rows)
+    cnt = _counts(targets, E, G, rows)
     score = rd = nd = None
     with ctx.under_test("ClassificationMetricsScore(frame)"):
         rd = L["divide"](res, tl)
@@ -431,14 +432,18 @@ def _frame(draw, labels, cams, uuids, max_n):
     gslots = draw(st.permutations(slots))[:n_gt]
     lab = st.sampled_from(labels)
     G = [[c, u, draw(lab)] for (c, u) in gslots]
-    mode = draw(st.sampled_from(["mixed", "mixed", "mixed", "faithful", "labels_only", "uuids_only"]))
+    mode = draw(st.sampled_from(["mixed", "mixed", "mixed", "mixed", "faithful", "labels_only", "uuids_only"]))
     menu = {
-        "mixed": ["same", "same", "flip", "move", "camera", "drop", "flip_move"],
+        "mixed": ["same", "same", "flip", "flip", "move", "move", "flip_move", "camera", "drop"],
         "faithful": ["same"],
-        "labels_only": ["same", "flip"],
+        "labels_only": ["same", "flip", "flip"],
         "uuids_only": ["same", "move", "move"],
     }[mode]
     E, used = [], set()
+
+    def other(pool, cur):
+        rest = [x for x in pool if x != cur]
+        return draw(st.sampled_from(rest)) if rest else cur
 
     def put(c, u, l):
         if (c, u) not in used and len(E) < max_n:
@@ -450,16 +455,23 @@ def _frame(draw, labels, cams, uuids, max_n):
         if act == "drop":
             continue
         if act in ("flip", "flip_move"):
-            l = draw(lab)
+            l = other(labels, l)
         if act in ("move", "flip_move"):
-            u = draw(st.sampled_from(uuids))
+            u = other(uuids, u)
         if act == "camera":
-            c = draw(st.sampled_from(cams))
+            c = other(cams, c)
         put(c, u, l)
     if mode == "mixed":
         for _ in range(draw(st.integers(0, 3))):
             c, u = draw(st.sampled_from(slots))
             put(c, u, draw(lab))
+    if mode in ("mixed", "uuids_only") and len(E) >= 2:
+        # exchange the uuids of two estimates of one camera (uniqueness per camera is preserved)
+        for _ in range(draw(st.integers(0, 2))):
+            i = draw(st.integers(0, len(E) - 1))
+            j = draw(st.integers(0, len(E) - 1))
+            if i != j and E[i][0] == E[j][0]:
+                E[i][1], E[j][1] = E[j][1], E[i][1]
     E = list(draw(st.permutations(E)))
     return {"est": E, "gt": G}
 
@@ -469,15 +481,16 @@ def _case(draw, frames):
     fam = draw(st.sampled_from(["tl", "tl", "autoware"]))
     uf = draw(st.booleans()) if fam == "tl" else False
     allv = ALL_LABELS[fam]
-    kind = draw(st.sampled_from(["few", "few", "subset", "all"]))
+    kind = draw(st.sampled_from(["few", "few", "few", "subset", "all", "single"]))
     if kind == "all":
         targets = list(allv)
     else:
-        targets = draw(st.lists(st.sampled_from(allv), min_size=1, max_size=3 if kind == "few" else len(allv), unique=True))
+        lo, hi = {"single": (1, 1), "few": (2, 3), "subset": (2, len(allv))}[kind]
+        targets = draw(st.lists(st.sampled_from(allv), min_size=lo, max_size=hi, unique=True))
     # labels actually used: a few of the targets, so that label coincidences are frequent
-    labels = draw(st.lists(st.sampled_from(targets), min_size=1, max_size=4, unique=True))
+    labels = draw(st.lists(st.sampled_from(targets), min_size=min(2, len(targets)), max_size=4, unique=True))
     cams = draw(st.lists(st.sampled_from(CAMS4), min_size=1, max_size=4, unique=True))
-    nu = draw(st.integers(1, 6))
+    nu = draw(st.sampled_from([1, 2, 3, 3, 4, 6, 8]))
     uuids = [f"u{k}" for k in range(1, nu + 1)]
     nf = draw(st.integers(1, frames))
     fs = [draw(_frame(labels, cams, uuids, 12)) for _ in range(nf)]
